@@ -558,7 +558,12 @@ impl HImg {
             }
             let ft = pick(n);
             out.push(ft);
-            out.extend(filter_row_ref(ft, bpp, line, &prior));
+            if ft > 4 {
+                // illegal type (malformed stream): the body is left unfiltered
+                out.extend_from_slice(line);
+            } else {
+                out.extend(filter_row_ref(ft, bpp, line, &prior));
+            }
             prior = line.to_vec();
         }
         out
